@@ -39,7 +39,7 @@ class A(Adapter):
             out.append(Config(f"job_shop-j{J}-m{M}-o{O}-d{D}", build, {"J": J, "M": M, "O": O, "D": D},
                               max_instances=200 if J >= 20 else 400))
         out.append(Config("job_shop-toy", lambda: JobShop(generator=ToyGenerator()), {"J": 5, "M": 4, "O": 4, "D": 4},
-                          constant_generator=True, max_instances=3))
+                          constant_generator=True, max_instances=3, toy=True))
         return out
 
     # ---- serialisation
@@ -56,6 +56,50 @@ class A(Adapter):
 
     def ser_action(self, env, a):
         return [int(x) for x in np.asarray(a).reshape(-1)]
+
+    # ---- C10, the toy instance: the closed Lean term `toyState` (Props.C10.jobshop_toy_ok) is the implementation's ToyGenerator reset
+    # state, and the documented optimal action sequence `toyActions` (Props.C10.jobshop_toy_makespan_achieved: legal, ends by completion
+    # at step 8, return -8, complete feasible schedule of makespan 8) does on the implementation what it does in the model
+    def instance_extra(self, ctx, cfg, env, runner, rng, drv, seeds):
+        if not cfg.meta.get("toy"):
+            return
+        import jax
+        import jax.numpy as jnp
+        from fractions import Fraction
+        from common import DriverError
+
+        rep = drv.batch([dict(op="job_shop.toy", cfg=cfg.cfg)])[0]
+        ctx.evaluations += 1
+        info = {"env": self.name, "config": cfg.cid}
+        if isinstance(rep, DriverError):
+            ctx.disagree(self.name, f"job_shop.toy failed: {rep}", info)
+            return
+        s, ts = runner.reset(jax.random.PRNGKey(seeds[0] if seeds else 0))
+        errs = []
+        if self.ser_state(env, s) != rep["state"]:
+            errs.append("the reset state of ToyGenerator differs from the Lean term toyState")
+        ret, t = 0.0, 0
+        for t, a in enumerate(rep["actions"]):
+            mask = np.asarray(ts.observation.action_mask).astype(bool)
+            if not all(mask[m][a[m]] for m in range(env.num_machines)):
+                errs.append(f"step {t}: action {a} is not allowed by the mask")
+            s, ts = runner.step(s, jnp.asarray(a, jnp.int32))
+            ret += float(ts.reward)
+            if int(ts.step_type) != (2 if t == len(rep["actions"]) - 1 else 1):
+                errs.append(f"step {t}: step type {int(ts.step_type)}")
+        if self.ser_state(env, s) != rep["final"]:
+            errs.append("final state differs from the Lean replay")
+        lean_ret = float(Fraction(rep["return"][0], rep["return"][1]))
+        if ret != lean_ret or ret != -8.0 or rep["makespan"] != 8 or not rep["solution"]:
+            errs.append(f"return {ret} vs Lean {lean_ret} (documented -8), Lean makespan {rep['makespan']}, solution {rep['solution']}")
+        end = np.asarray(s.scheduled_times) + np.asarray(s.ops_durations)
+        if int(end[np.asarray(s.ops_machine_ids) != -1].max()) != 8:
+            errs.append("the implementation's final schedule does not have makespan 8")
+        ctx.nontrivial.add((self.name, "toy"))
+        ctx.count("job_shop.toy_replayed")
+        if errs:
+            ctx.fail(self.name, "instance:toy_optimal_schedule", "the toy instance / its documented optimal schedule differ between model and implementation: " + "; ".join(errs[:3]),
+                     {**info, "actions": rep["actions"]}, {"certificate": "toy_optimal_schedule"})
 
     # ---- actions
     def _masked(self, env, mask, rng, mode, t):
